@@ -780,7 +780,9 @@ func c11Ufs(ctx *core.Ctx, dotu bool) core.Result {
 // c11SlowTeardown: the implementation is slow inside the callbacks of a connection's close processing (ConnClosed,
 // or FidDestroy of one of its fids: e.g. waiting for an operation that still uses the fid); meanwhile the bystander
 // connection must be served and a new connection must be accepted ("no other connection is disturbed").
-func c11SlowTeardown(ctx *core.Ctx, where string) core.Result {
+func c11SlowTeardown(ctx *core.Ctx, where string) core.Result { return slowTeardown(ctx, "C11", where) }
+
+func slowTeardown(ctx *core.Ctx, prop, where string) core.Result {
 	var res core.Result
 	for round := 0; round < 6 && len(res.Violations) == 0; round++ {
 		dotu := round%2 == 0
@@ -869,9 +871,9 @@ func c11SlowTeardown(ctx *core.Ctx, where string) core.Result {
 			after, _ := by.Rpc(&wire.Msg{Type: wire.Tstat, Tag: 43, Fid: 1}, W)
 			if after != nil && after.Msg != nil {
 				if late != "" {
-					res.Violate("C11;bystander-stalled;slow-"+where, late+" was not answered while another connection's close processing was inside the implementation's "+where, det)
+					res.Violate(prop+";bystander-stalled;slow-"+where, late+" was not answered while another connection's close processing was inside the implementation's "+where, det)
 				} else {
-					res.Violate("C11;new-connection-stalled;slow-"+where, "a new connection could not be set up while another connection's close processing was inside the implementation's "+where, det)
+					res.Violate(prop+";new-connection-stalled;slow-"+where, "a new connection could not be set up while another connection's close processing was inside the implementation's "+where, det)
 				}
 			} else {
 				res.Inconclusive = "c11: bystander dead after slow teardown"
